@@ -100,9 +100,10 @@ def random_step(rnd, df, vars_, only_rot=False):
         a, b = rnd.sample(range(1, nd + 1), 2)
         return {"x": x, "kind": "rotate90", "args": {"a": a, "b": b, "k": rnd.choice([1, 1, 2, 3, -1, -2, -3, 0, 4, 5, -5, 7]), "ref": ref}, "inplace": ip}
     if r < 0.65:
-        return {"x": x, "kind": "translate", "args": {"v": tuple(_pair(_rq(rnd, -9, 9)) for _ in range(nd))}, "inplace": ip}
+        zero = rnd.random() < 0.15   # the zero vector is a vector like any other
+        return {"x": x, "kind": "translate", "args": {"v": tuple(_pair(Fraction(0) if zero else _rq(rnd, -9, 9)) for _ in range(nd))}, "inplace": ip}
     if rnd.random() < 0.5:
-        f = rnd.choice([Fraction(2), Fraction(3), Fraction(1, 2), Fraction(-1), Fraction(-2), Fraction(3, 2), Fraction(0), Fraction(-1, 2)])
+        f = rnd.choice([Fraction(2), Fraction(3), Fraction(1, 2), Fraction(-1), Fraction(-2), Fraction(3, 2), Fraction(0), Fraction(-1, 2), Fraction(1)])
         s = tuple(_pair(f) for _ in range(nd))
     else:
         s = tuple(_pair(rnd.choice([Fraction(2), Fraction(1), Fraction(1, 2), Fraction(-1), Fraction(3), Fraction(0)])) for _ in range(nd))
